@@ -140,7 +140,9 @@ def same(a, b):
             return False
         if x.tzinfo is None:
             return x == y
-        return x == y and x.replace(tzinfo=None) == y.replace(tzinfo=None)
+        # same wall clock, same offset and same instant (== between values of one zone ignores fold; the conversion does not)
+        from datetime import timezone as _tz
+        return x.replace(tzinfo=None) == y.replace(tzinfo=None) and x.utcoffset() == y.utcoffset() and x.astimezone(_tz.utc) == y.astimezone(_tz.utc)
     return x == y
 
 
@@ -304,7 +306,7 @@ REGIONS = {}
 # values of subclasses of date / datetime (pendulum, freezegun and friends supply such objects) behave like their base type
 _sub = st.one_of(V.s_date, V.s_naive).map(lambda x: dict(x, sub=True))
 _val = st.one_of(V.s_date, V.s_naive, V.s_utc, V.s_zoned, V.s_zoned_dst, V.s_td, V.s_td, st.just({"k": "none"}), _sub)
-_good_start = st.one_of(V.s_date, V.s_naive, V.s_utc, V.s_zoned, V.s_zoned_dst, _sub)
+_good_start = st.one_of(V.s_date, V.s_naive, V.s_utc, V.s_zoned, V.s_zoned_dst, _sub, V.s_zoned_dst.map(lambda x: dict(x, fold=1)))
 _setattr = st.sampled_from(["start", "end", "DTSTART", "ENDPROP", "DURATION"])
 
 
